@@ -105,13 +105,13 @@ var properties = map[string]*propDef{
 		NotDecided:  "nothing of substance beyond `code = model` being a structural, not a semantic, equivalence - and that gap is closed for chains up to length 2 (plus x y x, twelve dominants / subdominants and two long alternations): op.NewCircleOfFifth() and op.KeyConversionChain.Convert themselves are folded on 28 keys x 40 chains, in both map orders, and each answer compared with the composition of the steps in the checker's own arithmetic (CIRCLEWIRE op.KeyConversionChain.Convert|domain).",
 	},
 	"C15": {
-		Rules:       []string{"TAB-DEGREE", "STATE", "TAB-NOTATION", "TAB-NOTE", "ADDDEGREE", "RECUR", "WIRE"},
+		Rules:       []string{"TAB-DEGREE", "STATE", "TAB-NOTATION", "TAB-NOTE", "ADDDEGREE", "RECUR", "SCHEMA", "WIRE"},
 		Technique:   techTab + ": 14-row size table; note.Degree.Semitone on 8 qualities x numbers 0..64 (both visiting orders of its table), Semitone.Octave / WithoutOctave, Accidental.Semitone by " + techFold + "; adjustment tuples, octave constants and model agreement for 1..64 x 7 when the size function does not fold",
 		Explanation: "the size table row by row, the four quality-adjustment tuples, the octave constants (7 numbers, 12 semitones), and agreement of the extracted tables + documented algorithm with the specification on size and validity for numbers 1..64 x 7 qualities; notation marks and the parser's candidate list (equal images, longest first); AddDegree adds root and interval, splits with floor semantics on 12 and tries natural, then the requested accidental, then the other; compound intervals are computed without unbounded recursion.",
 		NotDecided:  "ParseDegree's use of strings.Trim (it accepts some non-canonical spellings such as `3b`; the property only needs printed notation to read back); findNameBySemitone's search as a computation.",
 	},
 	"C16": {
-		Rules:       []string{"TAB-CHORDS", "TAB-ATTRS", "BUILDER", "VALIDATE", "REJECT", "RECUR", "EXTENDS", "WIRE"},
+		Rules:       []string{"TAB-CHORDS", "TAB-ATTRS", "BUILDER", "VALIDATE", "REJECT", "RECUR", "EXTENDS", "SCHEMA", "WIRE"},
 		Technique:   techTab + ": the two embedded dictionaries are constants and are decided completely",
 		Explanation: "the data clauses completely: every built-in symbol resolves, parent first, through the checker's own resolver and notation reader to the stated interval set; aliases; every attribute name denotes the interval its English name says; attribute.yml equals the independent generator's list for 1..19; chords are indexed by name and by display; built-ins are loaded before user files; every decoded entry is validated, references are validated by NewMap (the only constructor of Map), cyclic extends is rejected by a visited-set walk; inheritance is parent-first and recursive.",
 		NotDecided:  "that GenerateAttributes computes the list (its tables and loop bounds are checked and the file is compared with an independent generator, the function itself is not evaluated).",
@@ -160,7 +160,9 @@ var otherScope = map[string]map[string][]string{
 	// ... and the verdict of the parser must reach the exit status on every input path (stdin, `-`, FILE)
 	"C04": {"IOLAYER": {"cmd.readFileOrStdin", "cmd.parseText", "input-kind|"}, "ERRDROP": {"*bufio.Scanner", "cmd.parseText"}, "ERRFLOW": {"cmd.readFileOrStdin", "cmd.parseText", "cmd.textCmd"}, "RECUR": {"chan|input/ast.", "loop|input/ast.", "cycle|input/ast."}},
 	"C11": {"ERRDROP": {"*bufio.Scanner"}},
-	"C16": {"REJECT": {"chord."}},
+	"C16": {"REJECT": {"chord."}, "SCHEMA": {"producer|gen attr"}},
+	// what `gen attr` prints is read back by --attr as the same intervals
+	"C15": {"SCHEMA": {"producer|gen attr"}},
 	// an unknown conversion letter anywhere in a chain is refused
 	// ... and a decoder does not succeed without having kept what the document says
 	"C09": {"CIRCLEWIRE": {"op.KeyConversionChain.Convert"}, "CODEC": {"*|keeps"}},
